@@ -57,6 +57,11 @@ STRICT = {
                "Resolution = 192"],
     "song": ["", "free text", "{t} = N 0 0", "{t} = B 120000", "{t} = TS 4"],
 }
+# Garbage that merely LOOKS structural: body lines are rendered with the usual two-blank
+# indentation, so these end up as "  {", "  }", "  [Song]" - not the bare structural lines of the
+# format but ordinary unparsable content of the body.
+for _fam in STRICT:
+    STRICT[_fam] = STRICT[_fam] + ["{", "}", "} ", "[Song]", "[ExpertSingle]"]
 RELATIVE = {
     "instrument": ["= = =", "12 34", "{t} = ", "{t} = Q 1 2", "{t} = N", "N 0 0", "{t} == N 0 0",
                    "zero = N 0 0", "{t} = n 0 0", "{t} = N 0 0 0 junk", "-5 = N 0 0", "{t} = S 0 10",
